@@ -51,7 +51,7 @@ PROPS["C01"] = {
     "rule": ("rapid draws max segment bytes from {1,64,150,300,1024,65536,default} and 1-40 (thorough 1-120) ops: append(1-8 msgs; key nil/empty/short/300B, "
              "value nil/empty/5B-2KiB/70KiB, headers nil/empty/1-3 with empty/short/1100B values, equal or increasing timestamps, epoch bumps), appendset "
              "(1-6 msgs encoded as a follower receives them), truncate(class: any/inside batch/segment base+-1/batch start/beyond end), reopen(optionally new "
-             "segment size), sethw, probe(start class, committed or not), newreader/read (parked committed readers; dropped at a truncate or reopen). Non-trivial = the case rolled at least one segment AND contains one of: truncate "
+             "segment size), sethw, probe(start class, committed or not), newreader/read (parked committed readers; those positioned before a truncation point stay parked across the truncation, the others and all readers at a reopen are dropped). Non-trivial = the case rolled at least one segment AND contains one of: truncate "
              "strictly inside a batch, truncate at a segment base, reopen after a truncate, message-set append that rolled, probe starting at/inside a "
              "non-first segment. distinct = SHA-1 of the case encoding."),
     "assumptions": TRUST + ["process keeps running (crashes are C05)", "no compaction/retention in this flavour (C08/C09)"],
@@ -133,7 +133,7 @@ PROPS["C03"] = {
     "level": "exploration",
     "technique": "model-based stateful property testing (rapid) with persistent committed readers + concurrent monitor under the race detector",
     "level_text": '(a) sequential interleavings with persistent committed readers: append / HW advance (anywhere, exactly on the last message of a segment, exactly on the first) / new reader (any start, beyond the HW, empty log) / read / read-only toggle, each read compared with the model (must deliver exactly the next committed message, or must not deliver anything); (b) real goroutines under the race detector: appender, HW advancer with lag and step, 1-6 readers created mid-run, read-only toggler; every reader checks online that what it gets is committed, consecutive, with the stored content, and reaches the final HW',
-    "level_note": 'one appending goroutine per log (as the leader loop / follower handler guarantee); (b) samples schedules, rapid cannot shrink them; negative expectations (must block) are positive-observation checks; operation parkro parks a reader at the HW in a real blocking ReadMessage while the log is switched to read-only: it must stay blocked if uncommitted messages remain and must end otherwise; SetHighWatermark with a lower value must be ignored',
+    "level_note": 'one appending goroutine per log (as the leader loop / follower handler guarantee); (b) samples schedules, rapid cannot shrink them; negative expectations (must block) are positive-observation checks; operation parkro parks a reader at the HW in a real blocking ReadMessage while the log is switched to read-only: it must stay blocked if uncommitted messages remain and must end otherwise; SetHighWatermark with a lower value must be ignored; the concurrent unit runs two HW movers (as a leader has) and checks that the HW is never observed below a value whose SetHighWatermark call has returned',
     "rule": '(a) rapid draws 2-60 steps over segment sizes {1,64,150,300,1024}; non-trivial = a reader that blocked with the HW resting on the last message of a segment and later crossed into the next segment. (b) rapid draws batch sizes, lag, step, reader creation points and start fractions, toggles, yield pattern; non-trivial = >=2 readers parked in waitForHW at once and >=1 roll.',
     "assumptions": TRUST,
     "units": [
@@ -247,7 +247,7 @@ PROPS["C11"] = {
                    "SetCursor/FetchCursor/clean on the current leader interleaved with changes of the cursors-partition leader among the three (also back to an earlier leader, whose cache must have been purged); "
                    "a fetch on the new leader must return the last acknowledged SetCursor"),
     "level_note": "C11 unit: single node; C11b unit: leader changes are applied by the new leader first (the opposite order is the territory of the open finding C02-hw-truncation-fallback); an error return is not a violation (counted, >20% makes the case inconclusive); a failed SetCursor makes both the old and the new value acceptable",
-    "rule": "rapid draws key count and 4-40 operations (set, burst of sets, fetch, clean, purge, cache toggle, pause, restart). Non-trivial = at least one forced clean after cursors were stored (so later fetches read compacted, non-newest segments). C11b: 5-40 operations over 4 keys; non-trivial = a fetch answered correctly after at least one leader change.",
+    "rule": "rapid draws key count and 4-40 operations (set, burst of sets, fetch, clean, purge, cache toggle, pause, restart, race = 2-4 concurrent SetCursor calls for one cursor followed by a fetch through the cache and one through the log, which must agree). Non-trivial = at least one forced clean after cursors were stored (so later fetches read compacted, non-newest segments). C11b: 5-40 operations over 4 keys; non-trivial = a fetch answered correctly after at least one leader change.",
     "assumptions": TRUST,
     "units": [
         {"name": "C11", "pkg": "server", "test": "TestVerifC11",
